@@ -44,6 +44,12 @@ type c11Case struct {
 	// the last data post.
 	CloseRace bool `json:"close_race,omitempty"`
 	SlowMs    int  `json:"slow_ms,omitempty"`
+	// Reopen: "client-close" | "backend-close". The history is: open A, open B,
+	// traffic on A, A ends (closed by the client, or by its backend and reported
+	// by a poll), open C, then the usual interleaved two-session traffic on B
+	// and C. Each backend connection must see exactly its own session's
+	// messages and each session's polls exactly its own backend's.
+	Reopen string `json:"reopen,omitempty"`
 }
 
 type c11Spec struct {
@@ -528,8 +534,29 @@ func c11Run(b *shimBackend, c c11Case) (res c11Result) {
 	if nSess < 1 {
 		nSess = 1
 	}
+	crossed := func(sig string) string { return sig }
+	var sessA *c11Sess
+	if c.Reopen != "" {
+		nSess = 2
+		crossed = func(string) string { return "C11:cross-wired-sessions" }
+		sessA = &c11Sess{token: c.ID + "-A"}
+		id, bc, a := shimOpen(h, b, sessA.token, "/socket/"+c.ID+"?n=A", c.Version)
+		if id == "" || bc == nil {
+			violate("C11:open-failed", fmt.Sprintf("open answered %d %s", a.Status, shimTrunc(string(a.Body), 200)))
+			return
+		}
+		sessA.id, sessA.bc = id, bc
+		defer b.forget(sessA.token)
+	}
 	sess := make([]*c11Sess, nSess)
 	for i := range sess {
+		if c.Reopen != "" && i == 1 {
+			// B is open; A carries a message each way and ends; only then C is opened
+			if problem := c11EndFirstSession(h, sessA, c, version); problem != "" {
+				violate("C11:reopen:setup-failed", problem)
+				return
+			}
+		}
 		s := &c11Sess{token: fmt.Sprintf("%s-%d", c.ID, i)}
 		id, bc, a := shimOpen(h, b, s.token, fmt.Sprintf("ws://ignored.example/socket/%s?n=%d", c.ID, i), c.Version)
 		if a.Panic != "" {
@@ -542,6 +569,12 @@ func c11Run(b *shimBackend, c c11Case) (res c11Result) {
 			return
 		}
 		s.id, s.bc = id, bc
+		for _, o := range sess[:i] {
+			if o.id == id {
+				violate("C11:cross-wired-sessions", fmt.Sprintf("after %s of session %s, a new open was given session ID %s, which still belongs to an open session: the two websockets now share one entry", c.Reopen, sessA.id, id))
+				return
+			}
+		}
 		s.c2s = genMsgs(c.C2S/nSess+i*(c.C2S%nSess), "c2s")
 		s.s2c = genMsgs(c.S2C/nSess+i*(c.S2C%nSess), "s2c")
 		sess[i] = s
@@ -814,7 +847,7 @@ func c11Run(b *shimBackend, c c11Case) (res c11Result) {
 			return problem
 		}
 		if sig, msg := c11Compare(want, got, judge); sig != "" {
-			violate("C11:client-to-server:"+sig, fmt.Sprintf("session %s (inject=%v, v%d): %s", s.id, c.Inject, version, msg))
+			violate(crossed("C11:client-to-server:"+sig), fmt.Sprintf("session %s (inject=%v, v%d), backend connection %s: client-to-server %s: %s", s.id, c.Inject, version, s.token, sig, msg))
 		}
 		// server -> client
 		res.S2C += len(s.got)
@@ -826,7 +859,7 @@ func c11Run(b *shimBackend, c c11Case) (res c11Result) {
 			if len(s.problem) > 0 {
 				extra = "; " + strings.Join(s.problem, "; ")
 			}
-			violate("C11:server-to-client:"+sig, fmt.Sprintf("session %s (v%d), bursts %v, poll batches %v: %s%s", s.id, version, s.bursts, s.polls, msg, extra))
+			violate(crossed("C11:server-to-client:"+sig), fmt.Sprintf("session %s (v%d), backend connection %s, bursts %v, poll batches %v: server-to-client %s: %s%s", s.id, version, s.token, s.bursts, s.polls, sig, msg, extra))
 		}
 		for _, n := range s.polls {
 			if n > res.MaxPollBatch {
@@ -851,6 +884,39 @@ func c11Run(b *shimBackend, c c11Case) (res c11Result) {
 		shimPost(h, "close", nil, shimIDBody(s.id), shimBoundCall)
 	}
 	return res
+}
+
+// c11EndFirstSession carries one message each way over session A and ends
+// it the way c.Reopen says. "" = done.
+func c11EndFirstSession(h http.Handler, a *c11Sess, c c11Case, version int) string {
+	d := shimPost(h, "data", nil, []byte(`[{"id":"`+a.id+`","msg":"first session says hello"}]`), shimBoundCall)
+	if !d.Answered || d.Status != 200 {
+		return fmt.Sprintf("data on the first session answered %d", d.Status)
+	}
+	if !a.bc.waitRecv(func(r []shimMsg) bool { return len(r) >= 1 }, 10*time.Second) {
+		return "the first session's message did not reach its backend within 10s"
+	}
+	a.bc.send(shimMsg{websocket.TextMessage, []byte("first backend says hello")})
+	p := shimPost(h, "poll", nil, shimIDBody(a.id), shimBoundPoll)
+	if !p.Answered || p.Status != 200 {
+		return fmt.Sprintf("poll on the first session answered %d", p.Status)
+	}
+	if c.Reopen == "backend-close" {
+		a.bc.closeNow()
+		a.bc.settled(0)
+		for n := 0; n < 3; n++ {
+			p := shimPost(h, "poll", nil, shimIDBody(a.id), shimBoundPoll)
+			if p.Answered && p.Status == 400 {
+				return ""
+			}
+		}
+		return "the first session's backend closed but three polls later none had answered 400"
+	}
+	cl := shimPost(h, "close", nil, shimIDBody(a.id), shimBoundCall)
+	if !cl.Answered || cl.Status != 200 {
+		return fmt.Sprintf("close of the first session answered %d", cl.Status)
+	}
+	return ""
 }
 
 // c11Tail: the backend sends a last burst while nobody polls and closes
